@@ -127,6 +127,18 @@ def run(ctx):
                 gam = fn(tagged_geno(1, Lx), np.zeros(nn, dtype=int), np.array(xoprob), g)
                 return (np.asarray(gam) % 2).astype(int)
             add_stat(fname, xoprob, runraw)
+    # one call that is large in both directions (20000 gametes x 450 loci = 9 million draws): implementations that
+    # process the loci or the gametes in blocks must carry the phase across every block boundary; all adjacent intervals
+    lrng = random.Random(ctx.seed + 17)
+    big = [0.5 if l % 150 == 0 else lrng.choice([0.05, 0.1, 0.2, 0.25, 0.4, 0.0, 0.05]) for l in range(450)]
+    for fname, fn in fns.items():
+        def runbig(nn, seed, fn=fn, xoprob=big):
+            g = np.random.default_rng(seed)
+            gam = fn(tagged_geno(1, len(xoprob)), np.zeros(20000, dtype=int), np.array(xoprob), g)
+            return (np.asarray(gam) % 2).astype(int)
+        cid += 1
+        stat.append({"id": cid, "kind": "stat", "name": fname + "[20000x450]", "t": [list(t_of(p)) for p in big],
+                     "pairs": [[a, a + 1] for a in range(1, len(big))], "xoprob": big, "run": runbig})
     for pkey in PROTOS:
         xoprob = layouts[list(PROTOS).index(pkey) % len(layouts)]
         cls_name, npar = PROTOS[pkey]
